@@ -1034,7 +1034,7 @@ def rollback_append_poison(ctx):
 
 SWEEP_FILES = r"nomt/src/(store|bitbox|beatree|rollback|seglog|io)/|nomt/src/lib\.rs"
 # values that are capability probes, not I/O on database data: an error deliberately selects the fallback
-SWEEP_EXEMPT_DEF = r"fs_check"
+SWEEP_EXEMPT_DEF = r"fs_check|falloc_zero_file"   # fallocate is best-effort by design: on error the file is zeroed with writes instead
 # functions decided by their own obligations with a larger budget
 SWEEP_SKIP_FN = r"^store::<impl.*>::open$"
 
@@ -1099,6 +1099,7 @@ def no_swallow_sweep(ctx, shard=0, nshards=1):
                 b = cfg.blocks[bb]
                 if b.call and re.search(SWEEP_EXEMPT_DEF, b.call[1]):
                     probe.add("live" + b.call[0])
+                    probe.add("err" + b.call[0])
             if probe:
                 ops = {bb: [o for o in v if o[1] not in probe] for bb, v in ops.items()}
                 flags = [x for x in flags if x not in probe]
@@ -1107,6 +1108,7 @@ def no_swallow_sweep(ctx, shard=0, nshards=1):
             short = re.sub(r"<impl at nomt/src/([^:]+):\d+:\d+: \d+:\d+>", r"<\1>", nm)
             qs.append(PMulti("%s: no fallible value is dropped uninspected" % short, cfg, ops, flags, {}, L=120,
                              scenario=["c14_fault_sweep", "c14_ht_write_fails", "c14_ln_write_fails", "c14_bbn_write_fails_large"], key="%s:swallowed result" % short))
+            qs[-1].validate = (shard == 0)   # the native validation scenarios are the same for every shard: run them once
             enc.add("%s @ %s" % (short, f.file))
     if not qs:
         raise Unmatched("sweep shard %d/%d is empty" % (shard, nshards))
